@@ -60,7 +60,7 @@ def _build():
 
 def run_driver(driver, inp, timeout=120):
     b = build()
-    if not b: return dict(error='replay crate failed to build against the current tree: ' + _built.get('err', '')[-800:])
+    if not b: return dict(error='infra: replay crate failed to build against the current tree: ' + _built.get('err', '')[-800:])
     p = subprocess.run([b, 'run', driver, json.dumps(inp)], capture_output=True, text=True, timeout=timeout)
     try:
         return json.loads(p.stdout.strip().split('\n')[-1])
